@@ -1,6 +1,7 @@
 (* C15 — the const-ness / pointer-vs-window part of the C typing judgment.
    Under hyp_proc (front-end invariants at call sites, windows passed as window expressions only, every window
-   statement records the root buffer as src_buf) the emitted types agree; without it they need not (see Props). *)
+   statement records a name of its source's alias chain as src_buf) the emitted types agree; without it they need
+   not (see Props). *)
 From Coq Require Import List Bool Arith PeanoNat Lia.
 From Annot Require Import Model ModelSpec ProofsBase ProofsPrec ProofsChecks ProofsAccept.
 Import ListNotations.
@@ -313,8 +314,9 @@ Section Const.
       destruct (lookup x G) as [bx|] eqn:Lx; [|discriminate]. simpl. rewrite andb_true_r.
       apply andb_true_iff in L3. destruct L3 as [L3 L5]. apply andb_true_iff in L3. destruct L3 as [L3 L4].
       apply Nat.eqb_eq in L1, L4.
-      unfold name_const at 2. destruct (b_org bx); try discriminate. rewrite L4, L1.
-      unfold wc in L2. rewrite Ls in L2. unfold rootG at 2. rewrite Ls. unfold name_const.
+      assert (Ex : name_const G NC x bx = negb (mem_id (rootG G src) NC)).
+      { unfold name_const. destruct (b_org bx); try discriminate. rewrite L4, L1. reflexivity. }
+      rewrite Ex. unfold wc in L2. rewrite Ls in L2. unfold rootG at 1. rewrite Ls. unfold name_const. clear Ex.
       destruct (b_org bs); simpl; try reflexivity.
       + destruct (mem_id src NC); reflexivity.
       + apply Nat.eqb_eq in L2. rewrite L2. destruct (mem_id (b_root bs) NC); reflexivity.
